@@ -84,9 +84,18 @@ class T(Exception):
     pass
 
 
+_AST = {}
+
+
+def _parse(path):
+    if path not in _AST:
+        with open(path) as f:
+            _AST[path] = ast.parse(f.read())
+    return _AST[path]
+
+
 def _class_attrs(path, cls):
-    with open(path) as f:
-        tree = ast.parse(f.read())
+    tree = _parse(path)
     node = next((n for n in tree.body if isinstance(n, ast.ClassDef) and n.name == cls), None)
     if node is None:
         raise T("class %s not found in %s" % (cls, path))
@@ -141,9 +150,7 @@ def dialect_table(repo):
 def _find(repo, rel, qual):
     from translate import fingerprint
 
-    with open(os.path.join(repo, rel)) as f:
-        tree = ast.parse(f.read())
-    return fingerprint.find_node(tree, qual)
+    return fingerprint.find_node(_parse(os.path.join(repo, rel)), qual)
 
 
 CMP = {ast.Gt: ">?", ast.GtE: ">=?", ast.Lt: "<?", ast.LtE: "<=?", ast.Eq: "=?"}
@@ -526,7 +533,7 @@ def ddl_case(rng, did, drow, kind, how, target, kind_label):
     cin = [0, [drow[0], drow[1], drow[2]], ix, cv, g, env, []]
     kindres, name, _tr = mirror_ddl(cin)
     digest = hashlib.md5((name or "").encode("utf-8")).hexdigest()
-    cin[6] = rle(digest)
+    cin[6] = [ord(ch) for ch in digest]
     return {"in": cin, "kind": kind_label, "dialect": did, "ctype": KINDS[kind]}
 
 
@@ -558,8 +565,10 @@ def gen_ddl(rng, tier, tbl, known):
                     targets = set()
                     for lim in limits:
                         if lim <= 400:
-                            targets |= {lim - 1, lim, lim + 1, lim + 2}
-                    targets |= {rng.randint(0, 300) for _ in range(3)} | {rng.randint(1, 20), 300}
+                            targets |= {lim - 1, lim, lim + 1} | ({lim + 2, lim - 3} if rng.random() < 0.3 else set())
+                    targets |= {rng.randint(0, 300) for _ in range(2)} | {rng.randint(1, 20)}
+                    if rng.random() < 0.25:
+                        targets.add(300)
                     targets = sorted(t for t in targets if t >= 0)
                 if how == "none":
                     targets = targets[:1]
@@ -583,7 +592,7 @@ ANON_BODIES = ["a", "a_1", "ab", "aaaa", "aaaaaaaa", "a" * 30]
 
 def gen_lowlevel(rng, tier):
     cases = []
-    n = 6000 if tier == "thorough" else 900
+    n = 6000 if tier == "thorough" else 700
     for i in range(n):
         ll = rng.choice([None, 0, -2, 1, 2, 3, 4, 5, 6, 7, 8, 9, 10, 11, 12, 14, 20, 30])
         maxid = rng.choice([9999, 30, 12])
@@ -613,8 +622,8 @@ STMT_DIALECTS = [0, 1, 2, 3, 4]
 
 def gen_stmt(rng, tier, tbl, known):
     cases = []
-    nsmall = 4000 if tier == "thorough" else 700
-    nlarge = 120 if tier == "thorough" else 24
+    nsmall = 4000 if tier == "thorough" else 600
+    nlarge = 120 if tier == "thorough" else 18
     for i in range(nsmall + nlarge):
         large = i >= nsmall
         did = rng.choice(STMT_DIALECTS)
@@ -626,7 +635,8 @@ def gen_stmt(rng, tier, tbl, known):
         aliased = rng.random() < 0.6
         if large:
             ncols = rng.randint(100, 600 if tier == "thorough" else 300)
-            base = mkname(rng, rng.choice([1, 3, 10, 25, 40, 70, 200]))
+            # (the model's memo is an association list: cost ~ ncols^2 * name length)
+            base = mkname(rng, rng.choice([1, 3, 10, 25, 40] + ([70, 200] if ncols <= 130 else [])))
             tail = rng.choice(["", "_x", "xx" * 6])
             cols = [base + str(j) + tail for j in range(ncols)]
             tn = mkname(rng, rng.choice([1, 4, 12, 30, 70]), "t")
@@ -674,7 +684,17 @@ def gen_stmt(rng, tier, tbl, known):
 def gen_cases(rng, tier):
     tbl = _table()
     known = known_ids()
-    return gen_ddl(rng, tier, tbl, known) + gen_lowlevel(rng, tier) + gen_stmt(rng, tier, tbl, known)
+    cases = gen_ddl(rng, tier, tbl, known) + gen_lowlevel(rng, tier) + gen_stmt(rng, tier, tbl, known)
+    # spread the expensive cases over the shards (cases are evaluated 400 per file, files in parallel)
+    large = [c for c in cases if c["kind"] == "stmt_large"]
+    rest = [c for c in cases if c["kind"] != "stmt_large"]
+    step = max(len(rest) // (len(large) + 1), 1)
+    out = []
+    for k, c in enumerate(rest):
+        out.append(c)
+        if large and (k + 1) % step == 0:
+            out.append(large.pop())
+    return out + large
 
 
 def nontrivial(c):
@@ -834,6 +854,13 @@ def _run_ddl(c):
             return [3]
         except exc.CompileError:
             return [4]
+        except AssertionError:
+            # CREATE INDEX for an index without a name: the default compiler raises CompileError, the
+            # sqlite/postgresql/mysql/oracle/mssql overrides of visit_create_index run into
+            # `assert name is not None` in format_constraint (an internal error - C22's subject, not C21's)
+            if ctype == "ix":
+                return [4]
+            raise
 
     d = _mkdialect(did, override)
     # the runtime limits must be the ones the case (and so the model) was given
